@@ -8,8 +8,23 @@ Contract attached to the real `chython.smiles(text)` (default arguments), for ev
   (ii) it raises a ValueError subclass and the reference grammar rejects the string.
 A returned object for a string outside the language, a ValueError for a string inside it, any other exception class, or any field
 difference is a violation.  Violations are grouped in *families* (one VIOLATION per family, witness = shortest input, 5 shortest
-listed): `smiles-exc:<Exc>@<file>:<function>[:valid-input]`, `smiles-accept:<reference reject reason>[:rxn]`,
-`smiles-reject:<Exc>@<file>:<function>`, `smiles-diff:<aspect>[:<structural context>]`.
+listed).  The family key is decided by predicates on the INPUT (oracles/o03_families.py) plus an abstraction of what was returned, so that another
+wrong outcome for the same input class, or the same outcome for another input class, is another key:
+  `smiles-accept:<reference reject reason>:<context>[:rxn]/<as-repaired|not-as-repaired>` - context = which known lenient reading the offending
+      construct is (text predicate at the error position); the string with every such construct repaired must be in the language, and what was
+      built is compared with what the repaired string denotes; `:other` when some defect has no repair, `/then-no-verdict` when the repaired
+      string is one the reference has no verdict on;
+  `smiles-exc:<Exc>@<file>:<function>:<structural class of the input>[:valid-input]`, `smiles-reject:<Exc>@<file>:<function>`,
+  `smiles-diff:<aspect>:<structural context>/returns-<abstracted value>[:cx-groups[/radical-index-displaced]]`.
+For every family the run counts the inputs of the domain for which the family predicate holds (members) and those that fail
+(notes.b03_family_tightness).
+
+Coverage audit additions: (a) the documented keywords of `smiles` (ignore=False, remap, ignore_stereo, ignore_bad_isotopes, keep_implicit on reactions
+too, ignore_carbon_radicals, ignore_aromatic_radicals=False) under the contracts of oracles/o03_options.py (what the docstring says the keyword
+changes, everything else as the default call that already agreed with the reference reader) - families `smiles-opt:<keyword>:<aspect>[:rxn]`;
+(b) the input classes of bounded/d03_extra.py (every charge / H count / ring-closure number / element symbol spelling, isotope ranges, atom classes
+with gaps, descending, duplicated, > 999, across reaction roles, CXSMILES radical multiplicities, blank and non-ASCII inputs) and single edits of
+reaction / CXSMILES strings, all under the default contract above.
 """
 import itertools
 import os
@@ -41,10 +56,25 @@ BR_SLOTS = [['', '13', '1', '2', '0', '999', '1000', '014'],
 BR_TOKENS = ['13', '0', 'C', 'N', 'Cl', 'c', 'se', 'H', 'Fe', 'Xx', '@', '@@', 'H2', 'H5', '+', '-', '++', '+2', '+5', ':1', ':1234', ':', ';', '$', '*', ' ', '[', ']', '(', '%']
 # fixed, seed- and tier-independent inputs: one or two shortest witnesses of every defect family known on the pinned tree, so that the
 # quick and the thorough tier (and every seed) report the same family key set; they are ordinary members of the domain, judged as any other
-ANCHORS = ['(', ';', ';@', 'C!~C', '(!~', 'C=;@C', '#;@;@', 'C |^1:5|', '>> |^1:0|', 'C\\C=C1/2CC2C1', 'C/C=C=1\\C\\C1', '(C)/C=C=1\\C\\C1', '(C)\\C=C1/2CC2C1', 'C(C)(=C/N)\\3CC3', '(C)', '(C)C', '(C)>>', 'C!', '>>C!',
+ANCHORS = ['C! |^1:0||', 'Cl%64=N/3(I8\\%64)=[CH2]8/C3', '>;>C!', 'C3~[14c]2c4n923CC49', '(C(C))', '(C(C)(N))O', 'C11.FC.[B-]>> |f:0.2,^1:3|', 'C1C1.FC.[B-]>> |f:0.2,^1:4|', '[99C].FC.[B-]>> |f:0.2,^1:3|', '[a].FC.[B-]>> |f:0.2,^1:3|', '[Cc].FC.[B-]>> |f:0.2,^1:3|',
+           ';>> |f:0.2,^1:1|', ';.C>> |f:0.1|', 'C.;>>N |f:0.1|', '(', ';', ';@', 'C!~C', '(!~', 'C=;@C', '#;@;@', 'C |^1:5|', '>> |^1:0|', 'C\\C=C1/2CC2C1', 'C/C=C=1\\C\\C1', '(C)/C=C=1\\C\\C1', '(C)\\C=C1/2CC2C1', 'C(C)(=C/N)\\3CC3', '(C)', '(C)C', '(C)>>', 'C!', '>>C!',
            '[HH]', 'c1cc(#1)', 'C.(C)', 'CC(C)1CC1', 'C1CC%1', 'C |f:0.1|', 'C>>N |f:0.5|', '>>C |f:0.1|', '.>>C', 'C..N>>O', 'C>>C1C1', 'C>>C11', 'C>>[99C]',
            '[O-] |^1:0|', '>>[O-] |^1:0|', '>C.[O-]> |f:0.1,^1:1|', 'C.N.[O-]>> |f:0.2,^1:1|', 'c1/2cc2c1', 'c/1ccccc1', '>>c1/2cc2c1', 'C.N>>c1/2cc2c1 |f:0.1|',
            'C.N.O>>S |^1:1,f:0.2|', 'C.[C@H](F)(Cl)Br', 'C(.[C@H](F)(Cl)Br)C', 'F1.[C@H]1(N)CC', 'C.N>> |f:0.1|', 'C.N>O> |f:0.1|', 'C1=C/CCCCCC/1']
+# inputs for the keyword contracts: guessed radicals (carbon / heteroatom / aromatic tokens), H counts only recorded as mismatch, impossible isotopes,
+# one-sided ring-closure bond symbols, duplicated atom classes, stereo of every kind (tetrahedron, allene, cis-trans, in reactions)
+KEYWORD_CASES = ['[CH3]', 'C[CH2]', 'C[CH]C', 'C[C](C)C', '[CH2]', '[CH]', '[C]', 'C[N]C', 'C[NH]', 'C[O]', '[OH]', 'C[S]', '[CH2]C[CH2]', 'C[CH]C>>C[CH]C', 'C[O]>[CH3]>C[N]C',
+                 'c1cc[c]cc1', 'c1cc[n]cc1', 'c1cc[b]cc1', 'c1cc[p]cc1', 'c1cc[cH]cc1', 'c1cc[c-]cc1', 'c[c]c', 'c1cc2[c]cccc2cc1', 'c1ccc2[c](c1)cccc2', 'c1c[c]oc1', 'c1c[c]sc1',
+                 'c1cc[c]cc1>>c1cc[n]cc1', 'c1cc[c]cc1 |^1:3|', 'c1cc[14c]cc1', 'c1cc[c:7]cc1', '[c]1[c][c][c][c][c]1', 'C[c]1ccccc1',
+                 '[CH5]', '[CH4]C', 'C[CH3]', 'C[OH2]', '[OH3]', '[NH4]', '[NH4+]', '[CH2]=C', '[CH3]=C', 'C[CH4]>>C', '[cH2]1ccccc1', '[nH2]1cccc1', '[FH2]', '[ClH]', '[BH4-]', '[BH4]',
+                 '[99C]', '[99CH4]', 'C[99CH2]C', '[99CH3:5]C', 'C>>[99C]', '[99C]>>C', 'C.[99C]>[3C]>N', '[1C@H](F)(Cl)Br', '[99c]1ccccc1', '[5H]', '[400U]', '[99C][98C]', '[99C]C1C1',
+                 '[99C](', '[0C]', '[99C@@H](F)(Cl)Br>>[2H]O',
+                 'C=1CC1', 'C1CC=1', 'C=1CC=1', 'C-1CC1', 'C1CC-1', 'C/1CC1', 'C1CC\\1', 'C#1CCCCCCC1', 'c:1cccc1', 'c1cccc:1', 'C~1CC1', 'C=1CC1>>C1CC=1', 'C%10CC=%10', 'C=1C=2CC1CC2',
+                 'C=1CCCC=1C=1CCC1', 'C-1CC/1', 'C/1CC-1', 'C=1CC/1', '[C:1][C:1]', '[C:1]C[C:1]', '[C:1].[C:1]', '[CH4:1].[CH4:1]>>C', 'C>>[CH4:1].[CH4:1]', '[CH4:1]>[CH4:1]>C',
+                 '[CH4:1]>[CH4:2]>[CH4:1]', '[CH4:2]>[CH4:1]>[CH4:1]', '[CH4:1]>>[CH4:1]', '[CH3:1][CH3:2]>>[CH3:2][CH3:1]',
+                 'N[C@@H](C)C(=O)O', '[C@H](N)(C)C(=O)O', 'N[C@](C)(F)Cl', 'C[S@](=O)N', 'F/C=C/F', 'F/C=C\\F', 'F/C=C/C=C/F', 'CC(F)=C=C(C)F', 'CC(F)=[C@]=C(C)F', 'FC(Cl)=[C@@]=C(Br)I', 'CC(F)=[C@]=C(C)F>>CC(F)=[C@@]=C(C)F',
+                 'F[C@H](Cl)Br>>F[C@@H](Cl)Br', 'F/C=C/F>>F/C=C\\F', 'C[C@H]1CC[C@@H](C)CC1', 'C[C@@H]1CCCC[C@H]1C', '[C@H:3](F)(Cl)Br', '[C@H:3](F)([Cl:1])Br', 'F[C@:2]([Cl:1])(Br)I',
+                 'F/C=C/[C@H](Cl)Br', 'F/C=C/1CCCC[C@H]1Cl', '[O-][N+](=O)C1=C/CCCCCC/1', 'C[C@@](F)(Cl)[C@H](Br)I.[Na+]']
 MUT_QUICK = list('CNOcn()[]=#1290%+-@H/\\.:;!~>lr ')
 MUT_FULL = MUT_QUICK + list('SPFBIospb345678,$*|^&ZaeXx{}"\'')
 
@@ -61,6 +91,8 @@ def _setup():
     from rdkit import Chem, RDLogger
     RDLogger.DisableLog('rdApp.*')
     from oracles import o03_refsmiles as R
+    from oracles import o03_options as O
+    from oracles import o03_families as F
     iso = {}
     for c in Element.__subclasses__():
         try:
@@ -73,7 +105,7 @@ def _setup():
     ps.allowCXSMILES = False
     ps.parseName = False
     ps.strictCXSMILES = False
-    _S.update(smiles=smiles, R=R, Chem=Chem, ps=ps, iso=iso, isotope_ok=lambda el, i: i in iso.get(el, ()),
+    _S.update(smiles=smiles, R=R, O=O, F=F, Chem=Chem, ps=ps, iso=iso, isotope_ok=lambda el, i: i in iso.get(el, ()),
               repo=os.path.abspath(env.REPO) + os.sep)
     return _S
 
@@ -147,7 +179,7 @@ def compare_molecule(mol, rm, radicals=(), maps_kept=None):
         if a.charge != ra.charge:
             out.append(('atoms.charge', f'atom {i}: {a.charge} != {ra.charge}'))
         if ra.bracket and a.implicit_hydrogens != ra.hcount and mism.get(n) != ra.hcount:
-            ctx = 'cx-radical-atom' if i in radicals else 'plain'
+            ctx = ('cx-radical-atom' if i in radicals else 'plain') + ('/returns-None' if a.implicit_hydrogens is None else '/returns-a-count')
             out.append((f'atoms.hcount:{ctx}', f'atom {i} [{ra.element}]: implicit_hydrogens {a.implicit_hydrogens} (mismatch note {mism.get(n)}) != {ra.hcount}'))
         if maps_kept is None:  # molecule rule: first occurrence of a class keeps it as atom number, others numbered above the maximum
             if ra.amap and ra.amap not in seen_maps:
@@ -176,7 +208,7 @@ def compare_molecule(mol, rm, radicals=(), maps_kept=None):
             if got[k] != o:
                 ctx = ('aromatic-ends' if rm.atoms[k[0]].aromatic and rm.atoms[k[1]].aromatic else 'other') + '/' + rm.binfo[k][0] + \
                     ('/ring-closure' if rm.binfo[k][1] else '/chain')
-                out.append((f'bonds.order:{ctx}', f'bond {k}: {got[k]} != {o}'))
+                out.append((f'bonds.order:{ctx}/returns-{got[k]}', f'bond {k}: {got[k]} != {o}'))
     comps = {frozenset(idx[n] for n in c) for c in mol.connected_components}
     if comps != set(rm.components()):
         out.append(('components', f'{sorted(map(sorted, comps))} != {sorted(map(sorted, rm.components()))}'))
@@ -229,7 +261,7 @@ def _reaction_maps(rec):
     return out
 
 
-def compare(obj, rec):
+def compare(obj, rec, displaced=False):
     from chython.containers import ReactionContainer
     if rec.kind == 'molecule':
         if isinstance(obj, ReactionContainer):
@@ -251,7 +283,7 @@ def compare(obj, rec):
             out.extend((f'rxn.{asp}', f'{name}[{j}] {d}') for asp, d in compare_molecule(m, rm, rad, maps[k][j]))
             pos += 1
     if rec.groups:
-        out = [(a + ':cx-groups', d) for a, d in out]
+        out = [(a + ':cx-groups' + ('/radical-index-displaced' if displaced else ''), d) for a, d in out]
     return out
 
 
@@ -309,10 +341,33 @@ def rdkit_tet_sign(rd, i, nb, mark):
 
 
 # ---- the contract on one string ------------------------------------------------------------------------------------------
+_MEMBERS = []     # family keys whose input predicate holds for the string judged last (whatever the reader did with it): tightness table
+
+
+def _member_keys(s, rec, displaced):
+    """known-family predicates on a string of the language (text + reference record only)"""
+    out = []
+    rxn = rec.kind != 'molecule'
+    pre = 'rxn.' if rxn else ''
+    suf = (':cx-groups' + ('/radical-index-displaced' if displaced else '')) if rxn and rec.groups else ''
+    mols = _rec_mols(rec)
+    for k, rm in enumerate(mols):
+        rad = {a for p, a in rec.radicals if p == k} if rxn else rec.radicals
+        if any(rm.atoms[i].bracket for i in rad if i < len(rm.atoms)):
+            out.append(f'smiles-diff:{pre}atoms.hcount:cx-radical-atom/returns-None{suf}')
+        if any(kind == 'directional' and rc and rm.atoms[a].aromatic and rm.atoms[b].aromatic for (a, b), (kind, rc) in rm.binfo.items()):
+            out.append(f'smiles-diff:{pre}bonds.order:aromatic-ends/directional/ring-closure/returns-1{suf}')
+    if displaced:
+        out.append(f'smiles-diff:rxn.radicals{suf}')
+        out.append(f'smiles-diff:rxn.atoms.hcount:plain/returns-None{suf}')
+    return out
+
+
 def judge(s, deep=False):
     """-> (status, family or None, detail) ; status in accepted / rejected / unspecified / violation"""
     S = _S or _setup()
-    R = S['R']
+    R, F = S['R'], S['F']
+    del _MEMBERS[:]
     try:
         rec = R.read(s, S['isotope_ok'])
         ref = 'accept'
@@ -320,6 +375,20 @@ def judge(s, deep=False):
         rec, ref = None, 'reject:' + e.args[0]
     except R.Unspecified as e:
         rec, ref = None, 'unspecified:' + e.args[0]
+    akey = rep_ = rrec = None
+    if ref.startswith('reject'):
+        akey, rep_ = F.accept_key(s, ref[7:], S['isotope_ok'])
+        amem = len(_MEMBERS)
+        _MEMBERS.append(akey + ('/as-repaired' if rep_ is not None else ''))
+        if rep_ is not None:
+            rrec = R.read(rep_, S['isotope_ok'])
+    ectx = F.exc_context(s, rec or rrec, S['isotope_ok'])
+    if ectx != 'none':
+        _MEMBERS.append(f'exc-context:{ectx}' + (':valid-input' if ref == 'accept' else ''))
+    displaced = False
+    if rec is not None:
+        displaced = rec.kind != 'molecule' and bool(rec.groups) and F.displaced_radicals(s, S['isotope_ok'])
+        _MEMBERS.extend(_member_keys(s, rec, displaced))
     try:
         obj = S['smiles'](s)
     except ValueError as e:
@@ -327,14 +396,30 @@ def judge(s, deep=False):
             return 'violation', f'smiles-reject:{type(e).__name__}@{_where(e)}', f'string of the language rejected: {type(e).__name__}: {e}'
         return ('rejected' if ref.startswith('reject') else 'unspecified'), None, ref
     except Exception as e:
-        fam = f'smiles-exc:{type(e).__name__}@{_where(e)}' + (':valid-input' if ref == 'accept' else '')
+        fam = f'smiles-exc:{type(e).__name__}@{_where(e)}:{ectx}' + (':valid-input' if ref == 'accept' else '')
         return 'violation', fam, f'{type(e).__name__}: {e} (reference: {ref})'
     if ref.startswith('unspecified'):
         return 'unspecified', None, ref
     if ref.startswith('reject'):
-        rx = ':rxn' if '>' in s.split()[0] else ''
-        return 'violation', f'smiles-accept:{ref[7:]}{rx}', f'string outside the language ({ref[7:]}) yields {type(obj).__name__} {_fmt(obj)}'
-    diffs = compare(obj, rec)
+        if rep_ is not None:
+            dd = compare(obj, rrec)
+            how = f'; the lenient reading is {rep_!r}, and that is what was built'
+            if dd:
+                # the repaired string may itself be read with a (separately keyed) deviation: then the accepted string must be read the same way
+                try:    # (atom numbers may differ: a dropped component has taken numbers)
+                    same = S['O'].diff(S['O'].snapshot(S['smiles'](rep_)), S['O'].snapshot(obj), ('atoms', 'bonds', 'tet', 'ct', 'allene')) is None
+                except Exception:
+                    same = False
+                if same:
+                    dd, how = None, f'; the lenient reading is {rep_!r}, built exactly as the reader builds that string ({_fmt(obj)})'
+                else:
+                    how = f'; the lenient reading is {rep_!r}, but what was built differs from it: {dd[0][0]}: {dd[0][1]}'
+            akey += '/not-as-repaired' if dd else '/as-repaired'
+            _MEMBERS[amem] = akey
+        else:
+            how = ''
+        return 'violation', akey, f'string outside the language ({ref[7:]}) yields {type(obj).__name__} {_fmt(obj)}{how}'
+    diffs = compare(obj, rec, displaced)
     if diffs:
         return 'violation', f'smiles-diff:{diffs[0][0]}', '; '.join(f'{a}: {d}' for a, d in diffs[:4]) + f' (chython built {_fmt(obj)})'
     # keep_implicit=True must keep the written hydrogen count of every bracket atom
@@ -393,6 +478,189 @@ def _drop_check(mol, rm, smi):
     return None
 
 
+def _reason_family(reason, smi=''):
+    return _S['F'].reason_family(reason, smi)
+
+
+OPTS = [('ignore=False', {'ignore': False}), ('remap', {'remap': True}), ('ignore_stereo', {'ignore_stereo': True}),
+        ('ignore_bad_isotopes', {'ignore_bad_isotopes': True}), ('keep_implicit', {'keep_implicit': True}),
+        ('ignore_carbon_radicals', {'ignore_carbon_radicals': True}), ('ignore_aromatic_radicals=False', {'ignore_aromatic_radicals': False}),
+        ('remap+ignore=False+ignore_stereo', {'remap': True, 'ignore': False, 'ignore_stereo': True})]
+_STEREO = ('tet', 'ct', 'allene')
+
+
+def _rec_mols(rec):
+    return rec.mols if rec.kind == 'molecule' else rec.reactants + rec.reagents + rec.products
+
+
+def _expected(name, s0, rec):
+    """-> (expected snapshot, fields to compare) for a keyword on a string whose default result s0 agreed with the reference record rec"""
+    import copy
+    e = copy.deepcopy(s0)
+    flat = [m for _, ms in e for m in ms]
+    fields = ['nums', 'atoms', 'bonds', 'tet', 'ct', 'allene']
+    if 'ignore_stereo' in name:
+        for m in flat:
+            m['tet'], m['ct'], m['allene'] = {}, {}, {}
+    if 'remap' in name:
+        fields.remove('nums')
+    if name == 'keep_implicit':
+        for k, (m, rm) in enumerate(zip(flat, _rec_mols(rec))):
+            rad = rec.radicals if rec.kind == 'molecule' else {a for p, a in rec.radicals if p == k}
+            for i, ra in enumerate(rm.atoms):
+                if ra.bracket:
+                    el, iso, ch, _, _ = m['atoms'][i]
+                    m['atoms'][i] = (el, iso, ch, ra.hcount, i in rad)
+        fields = ['nums', 'atoms', 'bonds']
+    if name == 'ignore_carbon_radicals':
+        for m in flat:
+            for i in m['radicalized']:
+                el, iso, ch, h, r = m['atoms'][i]
+                if el == 'C':
+                    m['atoms'][i] = (el, iso, ch, h + 1, False)
+                    m['tet'] = m['ct'] = m['allene'] = None
+        fields = ['nums', 'atoms', 'bonds', 'tet', 'ct', 'allene']
+    return e, fields
+
+
+def _aromatic_radical_sites(rec):
+    out = []
+    for k, rm in enumerate(_rec_mols(rec)):
+        rad = rec.radicals if rec.kind == 'molecule' else {a for p, a in rec.radicals if p == k}
+        arom = {x for k_, o in rm.bonds.items() if o == 4 for x in k_}     # "aromatic token": bracket atom in an aromatic bond, no H, no charge
+        out.append({i for i, ra in enumerate(rm.atoms) if ra.bracket and i in arom and not ra.hcount and not ra.charge
+                    and ra.element in ('B', 'C', 'N', 'P') and i not in rad})
+    return out
+
+
+def judge_opts(s):
+    """the documented keywords of smiles() on one string -> list of (family, detail)"""
+    S = _S or _setup()
+    R, O = S['R'], S['O']
+    del _MEMBERS[:]
+    try:
+        rec = R.read(s, S['isotope_ok'])
+        ref = 'accept'
+    except R.Reject as e:
+        rec, ref = None, 'reject:' + e.args[0]
+    except R.Unspecified as e:
+        return []
+    try:
+        obj0 = S['smiles'](s)
+        d0 = None
+    except Exception as e:
+        obj0, d0 = None, (isinstance(e, ValueError), type(e).__name__, _where(e))
+    out = []
+    words = s.split()
+    rx = ':rxn' if words and '>' in words[0] else ''
+    bad_iso = ref == 'reject:bracket-isotope-not-tabulated'
+    if ref == 'accept' and obj0 is not None and not compare(obj0, rec):
+        s0 = O.snapshot(obj0)
+        smi = words[0]
+        all_reasons = [n for n, f in (('one-sided-ring-bond', O.one_sided_ring_symbol(smi)), ('duplicate-class', O.duplicate_classes(rec)),
+                                         ('hcount-mismatch', any(m['mismatch'] for _, ms in s0 for m in ms))) if f]
+        sites = _aromatic_radical_sites(rec)
+        for name, kw in OPTS:
+            fam = f'smiles-opt:{name}:'
+            strict_reasons = [x for x in all_reasons if not (x == 'duplicate-class' and 'remap' in name and not rx)]  # remap of a molecule discards the classes
+            try:
+                obj = S['smiles'](s, **kw)
+            except ValueError as e:
+                if 'ignore=False' in name and strict_reasons:
+                    continue
+                out.append((fam + f'reject:{type(e).__name__}@{_where(e)}{rx}', f'{kw}: string of the language rejected: {type(e).__name__}: {e}'))
+                continue
+            except Exception as e:
+                out.append((fam + f'exc:{type(e).__name__}@{_where(e)}{rx}', f'{kw}: {type(e).__name__}: {e}'))
+                continue
+            if 'ignore=False' in name and strict_reasons:
+                out.append((fam + f'accepts:{strict_reasons[0]}{rx}', f'{kw}: returns {_fmt(obj)} although the default call only logs a fix ({strict_reasons})'))
+                continue
+            s1 = O.snapshot(obj)
+            exp, fields = _expected(name, s0, rec)
+            d = O.shape_diff(exp, s1)
+            if d is None and 'remap' in name:
+                d = O.remap_expected(s0, s1, bool(rx))
+            if d is None and name == 'ignore_aromatic_radicals=False':
+                k = 0
+                for (role, j, a), (_, _, b) in zip(O._flat(exp), O._flat(s1)):
+                    for i in sites[k]:
+                        if b['atoms'][i] != a['atoms'][i]:
+                            if b['atoms'][i] != a['atoms'][i][:3] + (0, True):
+                                d = ('atoms', f'{role}[{j}] atom {i}: {b["atoms"][i]} is neither the default {a["atoms"][i]} nor its radical')
+                            a['atoms'][i] = b['atoms'][i]
+                            a['tet'] = a['ct'] = a['allene'] = None
+                    k += 1
+            if d is None:
+                for (role, j, a), (_, _, b) in zip(O._flat(exp), O._flat(s1)):
+                    for f in fields:
+                        if a[f] is not None and a[f] != b[f]:
+                            d = (f, f'{role}[{j}] {f}: {b[f]} != expected {a[f]}')
+                            break
+                    if d:
+                        break
+            if d:
+                out.append((fam + f'diff:{d[0]}{rx}', f'{kw}: {d[1]} (built {_fmt(obj)}, default {_fmt(obj0)})'))
+        # the default call itself: ignore_aromatic_radicals=True is the default
+        for (role, j, a), st in zip(O._flat(s0), sites):
+            for i in sorted(st):
+                deg = 'two-aromatic-bonds' if sorted(o for k_, o in a['bonds'].items() if i in k_ and o != 8) == [4, 4] else 'other-bonding'
+                _MEMBERS.append(f'smiles-opt:ignore_aromatic_radicals=True:radical-on-aromatic-token:{a["atoms"][i][0]}/{deg}{rx}')
+                if a['atoms'][i][4]:
+                    out.append((f'smiles-opt:ignore_aromatic_radicals=True:radical-on-aromatic-token:{a["atoms"][i][0]}/{deg}{rx}',
+                                f'default call (ignore_aromatic_radicals=True, "don\'t treat aromatic tokens like c[c]c as radicals") makes atom {i} '
+                                f'of {role}[{j}] a radical: {_fmt(obj0)}'))
+        return out
+    if ref.startswith('reject') and (d0 is not None or bad_iso):
+        reason = _reason_family(ref[7:])
+        for name, kw in OPTS:
+            fam = f'smiles-opt:{name}:'
+            try:
+                obj = S['smiles'](s, **kw)
+            except ValueError:
+                if bad_iso and name == 'ignore_bad_isotopes':
+                    try:
+                        R.read(s, None)
+                    except (R.Reject, R.Unspecified):
+                        continue
+                    out.append((fam + f'reject:bad-isotope-not-reset{rx}', f'{kw}: still rejected'))
+                continue
+            except Exception as e:
+                if d0 is None or (type(e).__name__, _where(e)) != d0[1:]:
+                    out.append((fam + f'exc:{type(e).__name__}@{_where(e)}{rx}', f'{kw}: {type(e).__name__}: {e} (reference: {ref})'))
+                continue
+            if bad_iso and name == 'ignore_bad_isotopes':
+                try:
+                    rec2 = R.read(s, None)
+                except R.Unspecified:
+                    continue
+                except R.Reject as e:
+                    out.append((fam + f'accepts:{_reason_family(e.args[0])}{rx}', f'{kw}: string outside the language yields {_fmt(obj)}'))
+                    continue
+                for rm in _rec_mols(rec2):
+                    for ra in rm.atoms:
+                        if ra.isotope is not None and not S['isotope_ok'](ra.element, ra.isotope):
+                            ra.isotope = None
+                dd = compare(obj, rec2)
+                if dd:
+                    # the text without the impossible isotope marks may itself be read with a (separately keyed) deviation: then the keyword
+                    # call must build exactly that
+                    import re
+                    words_ = s.split()
+                    words_[0] = re.sub(r'\[([0-9]+)([A-Za-z][a-z]?)', lambda m: m.group(0) if S['isotope_ok'](m.group(2).capitalize(), int(m.group(1)))
+                                       else '[' + m.group(2), words_[0])
+                    try:
+                        same = O.diff(O.snapshot(S['smiles'](' '.join(words_))), O.snapshot(obj)) is None
+                    except Exception:
+                        same = False
+                    if not same:
+                        out.append((fam + f'diff:{dd[0][0]}{rx}', f'{kw}: {dd[0][1]} (built {_fmt(obj)})'))
+                continue
+            if d0 is not None and d0[0]:
+                out.append((fam + f'accepts:{reason}{rx}', f'{kw}: string outside the language ({ref[7:]}), rejected by the default call, yields {_fmt(obj)}'))
+    return out
+
+
 _TOK = None
 
 
@@ -413,7 +681,7 @@ def shrink(s, fam, budget=600):
                 cand = toks[:i] + toks[i + width:]
                 t = ''.join(cand)
                 calls += 1
-                if t and judge(t, True)[1] == fam:
+                if t and (any(f == fam for f, _ in judge_opts(t)) if fam.startswith('smiles-opt:') else judge(t, True)[1] == fam):
                     toks = cand
                     improved = True
                 else:
@@ -437,10 +705,23 @@ class _Acc:
         self.fam = {}     # family -> sorted list of (len, string, detail) (5 shortest)
         self.odd = {}     # oracle disagreements
         self.samples = []
+        self.members = {}
 
-    def add(self, s, deep=False, keep_key=True):
+    def add(self, s, deep=False, keep_key=True, opts=False):
         st, fam, det = judge(s, deep)
         self.n += 1
+        for k in set(_MEMBERS):
+            self.members[k] = self.members.get(k, 0) + 1
+        if opts:
+            seen_f = set()
+            for f, d in judge_opts(s):
+                if f not in seen_f:
+                    seen_f.add(f)
+                    self._push(self.fam, f, s, d)
+            for k in set(_MEMBERS):
+                self.members[k] = self.members.get(k, 0) + 1
+            self.n += len(OPTS)
+            self.stat['keywords:' + st] = self.stat.get('keywords:' + st, 0) + 1
         if st == 'violation':
             self._push(self.fam, fam, s, det)
         elif st == 'oracle-disagreement':
@@ -469,6 +750,8 @@ class _Acc:
         del lst[1][5:]
 
     def result(self):
+        for k, v in self.members.items():
+            self.stat['member|' + k] = v
         return self.n, self.keys, self.stat, self.fam, self.odd, self.samples
 
 
@@ -498,11 +781,12 @@ def _w_brackets(args):
 
 
 def _w_strings(args):
-    strings, deep, must_parse = args
+    strings, deep, must_parse, *rest = args
+    opts = bool(rest and rest[0])
     _setup()
     acc = _Acc()
     for s in strings:
-        st = acc.add(s, deep)
+        st = acc.add(s, deep, opts=opts)
         if must_parse and st in ('rejected', 'unspecified'):
             acc._push(acc.fam, 'smiles-corpus-rejected', s, 'corpus string rejected by chython and by the reference grammar')
     return acc.result()
@@ -697,6 +981,13 @@ def bounded(run):
                'parity observed through MoleculeContainer._translate_tetrahedron_sign / _translate_cis_trans_sign (True = "@" with the hydrogen '
                'or lone pair last / cis); their permutation consistency is C12; stereo marks chython does not keep are only checked (non-ring '
                'centres and bonds) against RDKit\'s own perception',
+               'keywords of smiles() (oracles/o03_options.py, written from the docstring): judged on strings whose default result agreed with the reference '
+               '(expected = that result transformed as the keyword documents; ignore=False must raise ValueError exactly when the text has a one-sided '
+               'ring-closure bond symbol, a duplicated / reagent-shared atom class or an H count the default records as mismatch) and on strings the '
+               'default call rejects (a keyword call must not return an object, except ignore_bad_isotopes=True for impossible isotope marks, which '
+               'must give the molecule without the marks; no other exception class)',
+               'family keys (oracles/o03_families.py): the lenient readings of the pinned reader are described as text repairs; "as-repaired" also '
+               'covers "built exactly as the reader builds the repaired string" when that string has its own (separately keyed) deviation',
                'RDKit 2026.03 MolFromSmiles(sanitize=False, removeHs=False): second opinion only for strings both chython and the reference accept; '
                'a reference/RDKit disagreement is reported as oracle disagreement (note), never as a library violation')
 
@@ -755,6 +1046,49 @@ def bounded(run):
               f'strings of length <= {36 if quick else 48}: {sum(x[0] for x in res)} strings')
     tm['edits'] = round(time.time() - t0, 1)
 
+    # 5. input classes the token alphabet does not reach (coverage audit) ---------------------------------------------------------
+    t0 = time.time()
+    from bounded import d03_extra as X
+    extra = {'charge spellings': X.charge_strings(), 'H count spellings': X.hcount_strings(), 'ring-closure numbers and bond-symbol pairs': X.closure_strings(),
+             'element symbols': X.element_strings(), 'isotopes 0..320 of 9 elements': X.isotope_strings(),
+             'atom classes (gaps, descending, duplicates, > 999; molecules and reaction roles)': X.class_strings(),
+             'CXSMILES radical multiplicities ^0..^8, several blocks, f: groups of every role': X.cx_strings(),
+             'blank, control and non-ASCII inputs': X.blank_strings()}
+    allx = sorted({x for v in extra.values() for x in v})
+    _merge(run, pmap(_w_strings, [(c, True, False) for c in _chunks(allx, 150)]), fam, odd, stats)
+    run.bound('input classes (fixed enumerations of bounded/d03_extra.py): ' + '; '.join(f'{len(v)} {k}' for k, v in extra.items()) + f' - {len(allx)} distinct strings')
+    eb = X.edit_bases()
+    res = pmap(_w_mutants, [([b], alpha) for b in eb])
+    _merge(run, res, fam, odd, stats, note_keys=False)
+    run.bound(f'edits of reactions / CXSMILES: every single-character deletion, substitution and insertion (same {len(alpha)} characters) of {len(eb)} fixed strings '
+              f'(reaction roles, atom classes, f: groups, radicals, two-digit closures, charges, isotopes, stereo): {sum(x[0] for x in res)} strings')
+    tm['classes'] = round(time.time() - t0, 1)
+
+    # 6. the documented keywords of smiles() ---------------------------------------------------------------------------------------
+    t0 = time.time()
+    two = [a + b for a in [''] + FULL for b in FULL]
+    nk = 500 if quick else len(cs)
+    kdom = sorted(set(two) | set(gen[:1200 if quick else 6000]) | set(tpl) | set(rr) | set(ANCHORS) | set(X.class_strings()) | set(X.cx_strings())
+                  | set(X.closure_strings()) | set(X.blank_strings()) | set(X.isotope_strings()[::3]) | set(X.hcount_strings()) | set(KEYWORD_CASES)
+                  | set(rnd('b03-kw').sample(cs, nk)))
+    res = pmap(_w_strings, [(c, False, False, True) for c in _chunks(kdom, 60)])
+    _merge(run, res, fam, odd, stats, note_keys=False)
+    run.bound(f'keywords: each of {[n for n, _ in OPTS]} on {len(kdom)} strings (all 1-2 token strings, {1200 if quick else 6000} grammar-generated, all templates, '
+              f'reaction radicals, anchors, atom-class / CXSMILES / ring-closure / H count / blank enumerations, every third isotope string, {len(KEYWORD_CASES)} '
+              f'keyword cases, {nk} seeded corpus strings); judged where the default call agreed with the reference or rejected')
+    tm['keywords'] = round(time.time() - t0, 1)
+
+    memb = {k[7:]: v for k, v in stats.items() if k.startswith('member|')}
+    for k in list(stats):
+        if k.startswith('member|'):
+            del stats[k]
+
+    def _members_of(k):
+        if k.startswith('smiles-exc:'):
+            parts = k.split(':')      # smiles-exc : Exc@file.py : function : context [: valid-input]
+            return memb.get('exc-context:' + ':'.join(parts[3:]))
+        return memb.get(k)
+    run.notes['b03_family_tightness'] = {k: {'members': _members_of(k), 'failing': fam[k][0]} for k in sorted(fam)}
     run.notes['b03_outcomes'] = dict(sorted(stats.items(), key=lambda kv: -kv[1])[:40])
     run.notes['b03_seconds'] = tm
     if odd:
@@ -765,7 +1099,7 @@ def bounded(run):
         if len(s) > 12 and k != 'smiles-corpus-rejected':
             s2 = shrink(s, k)
             if len(s2) < len(s):
-                lst.insert(0, (len(s2), s2, judge(s2, True)[2]))
+                lst.insert(0, (len(s2), s2, next(d for f, d in judge_opts(s2) if f == k) if k.startswith('smiles-opt:') else judge(s2, True)[2]))
                 _, s, det = lst[0]
         run.violation(k, f'C03 family {k}: {cnt} input(s), shortest {s!r}: {det}',
                       witness={'smiles': s, 'examples': [x[1] for x in lst], 'count': cnt}, native=det)
@@ -779,4 +1113,8 @@ def replay(rec):
         st, fam, det = judge(s, deep=True)
         print(f'  {s!r}: {st} {fam or ""} {det or ""}')
         ok = ok and st != 'violation'
+        if str(rec.get('key', '')).startswith('smiles-opt:'):
+            for f, d in judge_opts(s):
+                print(f'  {s!r}: keyword contract {f} {d}')
+                ok = False
     return ok
